@@ -82,9 +82,9 @@ def sib_rule(ctx: Ctx, imap: dict) -> None:
     r.floor(45)
 
 
-def split_rule(ctx: Ctx, imap: dict) -> None:
+def split_rule(ctx: Ctx, imap: dict, rid: str = "R02.split", interlock_only: bool = False) -> None:
     m = ctx.model
-    r = ctx.rule("R02.split", "interlock interface and control-signal table per class")
+    r = ctx.rule(rid, "interlock interface and control-signal table per class")
     for k in sorted(ISA):
         c = imap.get(k)
         if c is None:
@@ -122,6 +122,8 @@ def split_rule(ctx: Ctx, imap: dict) -> None:
                 f"{k}: behavior() {'writes' if writes_rd else 'does not write'} rd but get_write_register returns `{wr}`: "
                 "the interlock does not see this instruction as a producer" if writes_rd else
                 f"{k}: get_write_register returns `{wr}` although the instruction writes no register")
+        if interlock_only:
+            continue
         want = {
             "mem_read": k in LOADS, "mem_write": k in STORES, "branch": k in ("beq", "bne", "blt", "bge", "bltu", "bgeu"),
             "jump": k == "jal", "alu_to_pc": k == "jalr", "reg_write": writes_rd,
@@ -132,7 +134,7 @@ def split_rule(ctx: Ctx, imap: dict) -> None:
         if writes_rd:
             r.check(ctrl["wb_src"] in (0, 1, 2, 3), f"{c.name}|wb_src", m.lookup(c, "control_unit_signals").loc(),
                     f"{k}: writes rd but wb_src is {ctrl['wb_src']!r}")
-    r.floor(150)
+    r.floor(80 if interlock_only else 150)
 
 
 def mux_rule(ctx: Ctx) -> None:
